@@ -1568,6 +1568,11 @@ func (o *Oracle) stepRemove(r wire.Req) *Fail {
 			if !legal && res == 0 {
 				return fail("remove-truth", "non-empty-dir", "%s %q removed non-empty directory", r.Op, r.Path)
 			}
+			// "exactly their named effect": delete-file removes files, rmdir removes directories. Symbolic
+			// links are left out (whether the link or its target decides is not stated).
+			if !matching && gone && st.Mode&syscall.S_IFMT != syscall.S_IFLNK {
+				return fail("remove-truth", r.Op.String()+"-wrong-kind", "%s %q removed a %s", r.Op, r.Path, pick(isDir(st), "directory", "file that is not a directory"))
+			}
 			if gone {
 				if o.ro == sOpen && t.os == o.roPath {
 					o.ro = sFree // the open handle now names an unlinked object
